@@ -157,6 +157,40 @@ def run(tier):
                 and any(len(p) == 1 and p[0][1] == "opp" for p in pab)):
             report.fail({"site": "root-anomer", "kind": "not-exactly-one-centre", "root": "library-entry"},
                         {"glycan": nm, "a": a_, "b": b_, "undeclared": pl_, "profiles": {"a_vs_none": pa[:3], "b_vs_none": pb[:3], "a_vs_b": pab[:3]}})
+    # (vi) modified reducing ends -- epimerised (<n>e), deoxygenated, D-/L- prefixed, substituted --, bare and with a child:
+    #      suffix = option, and the declared forms differ from the undeclared one in exactly one centre
+    mods_ = ["2e", "3e", "4e", "6d", "2d", "NAc", "3S", "2F", "6Ac", "4Me", "N", "2e3e", "6d4e", "3e6S"]
+    ends_ = []
+    for b_ in (["Glc", "Gal", "Man", "Tal", "Ido"] if tier == "thorough" else r.sample(["Glc", "Gal", "Man", "Tal", "Ido"], 2)):
+        for m_ in (mods_ if tier == "thorough" else r.sample(mods_, 5) + ["2e"]):
+            for pre_ in (("", "L-", "D-") if tier == "thorough" else ("", r.choice(["L-", "D-"]))):
+                ends_.append(pre_ + b_ + m_)
+    mreqs, mmeta = [], []
+    for e_ in sorted(set(ends_)):
+        used_ = set(ch for ch in e_ if ch.isdigit())
+        free_ = [p_ for p_ in "346" if p_ not in used_]
+        for txt in ([e_] + ([f"Man(a1-{free_[0]}){e_}"] if free_ else [])):
+            for key_, sfx_, kw_ in (("n", "", {}), ("sa", " a", {}), ("sb", " b", {}), ("oa", "", {"root_orientation": "a"}), ("ob", "", {"root_orientation": "b"})):
+                mreqs.append({"iupac": txt + sfx_, "kw": kw_}); mmeta.append((txt, key_))
+    mtab = {m: o["smiles"] for m, o in zip(mmeta, C.run_impl_parallel("convert_many", mreqs))}
+    n_mod = 0
+    for txt in sorted(set(m[0] for m in mmeta)):
+        pl_, a_, b_ = mtab[(txt, "n")], mtab[(txt, "sa")], mtab[(txt, "sb")]
+        if not (pl_ and a_ and b_):
+            continue
+        n_mod += 1
+        report.case("modified-end:" + txt, "(" in txt)
+        for an_ in "ab":
+            got_, want_ = mtab[(txt, "o" + an_)], mtab[(txt, "s" + an_)]
+            if not got_ or not orc.same(got_, want_):
+                report.fail({"site": "root-anomer", "kind": "suffix-vs-option", "suffix": "-", "option": an_, "root": "modified-residue"},
+                            {"glycan": txt, "root_orientation": an_, "observed": got_, "expected_same_as": want_,
+                             "problem": "anomer given by option differs from the same anomer given by suffix"})
+        pa, pb, pab = orc.profiles(a_, pl_), orc.profiles(b_, pl_), orc.profiles(a_, b_)
+        if not (any(len(p) == 1 and p[0][1] == "left" for p in pa) and any(len(p) == 1 and p[0][1] == "left" for p in pb)
+                and any(len(p) == 1 and p[0][1] == "opp" for p in pab)):
+            report.fail({"site": "root-anomer", "kind": "not-exactly-one-centre", "root": "modified-residue"},
+                        {"glycan": txt, "a": a_, "b": b_, "undeclared": pl_, "profiles": {"a_vs_none": pa[:3], "b_vs_none": pb[:3], "a_vs_b": pab[:3]}})
     # objects whose SMILES is assembled lazily (tree_only=True; full=False with an undetermined part)
     for root in (ends[:8] if tier == "quick" else ends):
         poss = T.RES[root][1] if root in T.RES else extra_pos[root]
@@ -187,7 +221,7 @@ def run(tier):
                     {"no_failing_input": True, "what_no_longer_checks": broken, "theorems": names_thm})
     report.assumptions = ["A-rdkit-write: a SMILES rooted at another atom denotes the same molecule (decided per input by Iso.same_molecule)"]
     extra = {"rule": "glycans x root anomer {none,a,b} by suffix x option {n,a,b} x start in {1..9,100,0,-1,42,10,1000} (quick: 7 of them); plus every reducing-end residue of the generator's vocabulary and further ring forms x every free position x anomer by option x start on the linkage position; distinct glycans, non-trivial = at least 2 residues",
-             "conversions": len(reqs) + len(sreqs), "reducing_end_sweep": swept, "library_reducing_ends": n_lib, "grammar_residue_checks": n_gram, "print_assumptions": res.assumptions.get(f"Props/{PROP}.v", "").strip().splitlines()[-4:]}
+             "conversions": len(reqs) + len(sreqs), "reducing_end_sweep": swept, "library_reducing_ends": n_lib, "modified_reducing_ends": n_mod, "grammar_residue_checks": n_gram, "print_assumptions": res.assumptions.get(f"Props/{PROP}.v", "").strip().splitlines()[-4:]}
     return report.finish("proof", ob, dis, names_thm, trusted=C.TRUSTED, extra=extra)
 
 
